@@ -105,11 +105,19 @@ func topicInit(t *Topic, join *ClientComMessage, h *Hub) {
 	// prevent newly initialized topics to go live while shutdown in progress
 	if globals.shuttingDown {
 		h.topicDel(join.RcptTo)
+		if join.Sub != nil {
+			// Tell the client that the subscription did not happen.
+			join.sess.queueOut(ErrLockedReply(join, timestamp))
+		}
 		return
 	}
 
 	if t.isDeleted() {
 		// Someone deleted the topic while we were trying to create it.
+		if join.Sub != nil {
+			// Tell the client that the subscription did not happen.
+			join.sess.queueOut(ErrTopicNotFoundReply(join, timestamp))
+		}
 		return
 	}
 
